@@ -42,7 +42,7 @@ MON_PROP = {
     "stale_writer_close_applied": ("C09",), "bytes_mismatch": ("C09",), "bytes_changed_during_read": ("C09",), "get_before_writer_closed": ("C09",),
     "pageout_during_read": ("C09",), "pageout_during_write": ("C09",), "unlink_during_read": ("C09",),
     "get_granted_without_segment": ("C09",), "get_unknown_granted": ("C09",), "deser_fun_mismatch": ("C09",),
-    "get_error_on_held_key": ("C09",), "wait_forever": ("C09",),
+    "get_error_on_held_key": ("C09",), "wait_forever": ("C09",), "deferred_purge_not_applied": ("C09",),
 }
 
 
@@ -516,6 +516,10 @@ class World:
             self.last_answer = "rclose-error"
         if not self.readers[k] and k in self.ref_delayed:
             if was_fresh or k not in self.mgr.datasets:
+                if was_fresh and self.last_answer == "ok" and k in self.mgr.datasets and not self.mgr.datasets[k].ongoing_reads:
+                    # C09: "a purge during a read takes effect when the last reader closes"
+                    self.bad("deferred_purge_not_applied", "a purge deferred behind readers did not take effect when the last reader closed",
+                             f"key {k}: status {self.mgr.datasets[k].status.name}, delayed_purge={self.mgr.datasets[k].delayed_purge}")
                 self._ref_remove(k)
             else:
                 # the closing reader was older than the staleness window: the store may have paged the dataset out under
